@@ -663,19 +663,21 @@ func (r *runningStep) closedEarly(stageToMarkUnresolvable StageID, priorStageFai
 	}
 	closedOutput := any(map[any]any{"close_requested": r.closed.Load()})
 
-	r.completeStep(
-		StageIDClosed,
-		step.RunningStepStateFinished,
-		schema.PointerTo("result"),
-		&closedOutput,
-	)
-
+	// The stages that will not happen are declared before the completion is reported: once a step shows
+	// as finished nothing may still be owed to the workflow, or a delay here would look like a standstill.
 	err := fmt.Errorf("step foreach %s closed due to workflow termination", r.runID)
 	r.markStageFailures(stageToMarkUnresolvable, err)
 	if stageToMarkUnresolvable == StageIDExecute {
 		// Closed before the enabling input was seen: markStageFailures starts after the disabled stage.
 		r.stageChangeHandler.OnStepStageFailure(r, string(StageIDDisabled), &r.wg, err)
 	}
+
+	r.completeStep(
+		StageIDClosed,
+		step.RunningStepStateFinished,
+		schema.PointerTo("result"),
+		&closedOutput,
+	)
 }
 
 func (r *runningStep) transitionToDisabled() {
@@ -689,16 +691,17 @@ func (r *runningStep) transitionToDisabled() {
 		&enabledOutput,
 	)
 	disabledOutput := any(map[any]any{"message": fmt.Sprintf("Step foreach %s disabled", r.runID)})
+	// Declared before the completion is reported (see closedEarly).
+	err := fmt.Errorf("step foreach %s disabled", r.runID)
+	r.markStageFailures(StageIDExecute, err)
+	r.markNotClosable(err)
+
 	r.completeStep(
 		StageIDDisabled,
 		step.RunningStepStateFinished, // Must set the stage to finished for the engine realize the step is done.
 		schema.PointerTo("output"),
 		&disabledOutput,
 	)
-
-	err := fmt.Errorf("step foreach %s disabled", r.runID)
-	r.markStageFailures(StageIDExecute, err)
-	r.markNotClosable(err)
 }
 
 // Closable is the graceful case, so this is necessary if it crashes.
@@ -864,14 +867,15 @@ func (r *runningStep) processInput(input executeInput) {
 		&r.wg,
 		unresolvableError,
 	)
+	// The step produced its result: it can no longer be closed early. Without this, anything that
+	// depends on the closed stage would wait until every other step ends. Declared before the
+	// completion is reported (see closedEarly).
+	r.markNotClosable(fmt.Errorf("step foreach %s finished", r.runID))
 	r.lock.Lock()
 	r.currentState = step.RunningStepStateFinished
 	previousStage = string(r.currentStage)
 	r.lock.Unlock()
 	r.stageChangeHandler.OnStepComplete(r, previousStage, &outputID, &outputData, &r.wg)
-	// The step produced its result: it can no longer be closed early. Without this, anything that
-	// depends on the closed stage would wait until every other step ends.
-	r.markNotClosable(fmt.Errorf("step foreach %s finished", r.runID))
 }
 
 // returns true if there is an error.
